@@ -8,6 +8,7 @@ mod progproto;
 mod compilelayer;
 mod rtproto;
 mod seslayer;
+mod findlayer;
 
 pub fn dispatch_answer(req: &str) -> String {
     let parts: Vec<&str> = req.split(' ').collect();
@@ -15,6 +16,7 @@ pub fn dispatch_answer(req: &str) -> String {
         "PARSE" => parselayer::answer_parse(&parts),
         "COMPILE" => compilelayer::answer_compile(req),
         "SES" => seslayer::answer_ses(req),
+        "FIND" => findlayer::answer_find(req),
         _ => ops::answer(req),
     }
 }
@@ -41,6 +43,15 @@ fn main() {
         "compile" => compilelayer::gen_compile(&mut w, &tier, seed),
         "ses" => seslayer::gen_ses(&mut w, &tier, seed),
         "hist" => seslayer::gen_hist(&mut w, &tier, seed),
+        "find-c04" => findlayer::gen_c04(&mut w, &tier, seed),
+        "find-c09" => findlayer::gen_c09(&mut w, &tier, seed),
+        "find-c10" => findlayer::gen_c10(&mut w, &tier, seed),
+        "find-c12" => findlayer::gen_c12(&mut w, &tier, seed),
+        "find-c13" => findlayer::gen_c13(&mut w, &tier, seed),
+        "find-c17" => findlayer::gen_c17(&mut w, &tier, seed),
+        "find-c18" => findlayer::gen_c18(&mut w, &tier, seed),
+        "find-c19" => findlayer::gen_c19(&mut w, &tier, seed),
+        "find-c20" => findlayer::gen_c20(&mut w, &tier, seed),
         "replay" => ops::replay(&mut w),
         other => {
             eprintln!("unknown layer {}", other);
